@@ -27,8 +27,15 @@ let run_r ~cap = function
   | [ spec; cfg; script; input; ops ] ->
       let sp = parse_spec spec in
       let rc = parse_cfg sp cfg in
-      let (c, outs) = run_reader_cap rc.cfg rc.cap0 (parse_rscript script) (unhex input) (parse_rops ops) in
+      let scr = parse_rscript script in
+      let (c, outs) = run_reader_cap rc.cfg rc.cap0 scr (unhex input) (parse_rops ops) in
       let s = print_routs outs in
+      (* on a calm source (no Ok(0) pause, no error) the abstract reader Pure.p_run must give the same result *)
+      let calm = List.for_all (function Chunk n -> n <> N0 | _ -> false) scr in
+      let s = if calm then begin
+          let s2 = print_routs (p_run rc.cfg (unhex input) (parse_rops ops)) in
+          if s2 = s then s else "PUREDIFF buffered[" ^ s ^ "] pure[" ^ s2 ^ "]"
+        end else s in
       if cap then (string_of_n c ^ (if s = "" then "" else " " ^ s)) else s
   | _ -> raise (Bad "R")
 
